@@ -1354,6 +1354,53 @@ def check_decisions(ctx, rep, rng, tier):
     rep.extra["decision_cases"] = n
 
 
+def check_default_filters(ctx, rep, rng, tier):
+    """a password given WITHOUT explicit filters (the library picks the chain): the result must be encrypted all the same,
+    for every password including the empty one, with and without header encryption"""
+    AES_ID = b"\x06\xf1\x07\x01"
+    sets = member_sets(rng, "quick")
+    for pi, pw in enumerate(PASSWORDS):
+        for hmode in (1, 2):
+            members = sets[(pi + hmode) % len(sets)]
+            bio = io.BytesIO()
+            kw = {"header_encryption": True} if hmode == 2 else {}
+            with py7zr.SevenZipFile(bio, "w", password=pw, **kw) as z:
+                for n, d in members:
+                    z.writestr(d, n)
+            a = bio.getvalue()
+            rep.count(("default-filters", pw, hmode, tuple(n for n, _ in members)), nontrivial=True)
+            rep.dist("default_filters_password", "empty" if pw == "" else "non-empty")
+            problems = []
+            try:
+                with py7zr.SevenZipFile(io.BytesIO(a), "r", password=pw) as z:
+                    fs = z.header.main_streams.unpackinfo.folders
+                    if not all(any(c["method"] == AES_ID for c in f.coders) for f in fs):
+                        problems.append("a folder of the archive has no 7zAES coder: %r" % [[c["method"].hex() for c in f.coders] for f in fs])
+            except Exception as e:  # noqa
+                problems.append("the archive cannot be opened with its own password: %s" % type(e).__name__)
+            try:
+                with py7zr.SevenZipFile(io.BytesIO(a), "r") as z:
+                    fac = arch.Collect()
+                    z.extractall(factory=fac)
+                    got = dict(fac.as_list())
+                if any(got.get(n) == d for n, d in members if d):
+                    problems.append("opened WITHOUT a password it delivers the members' contents")
+                else:
+                    problems.append("opened without a password extraction returns normally")
+            except Exception:  # noqa  (PasswordRequired or any other refusal)
+                pass
+            for n, d in members:
+                if len(d) >= 24 and d[:24] in a:
+                    problems.append("24 plaintext bytes of %r are stored in the clear" % n)
+                    break
+            if problems:
+                rep.violation("password %r given without filters, header mode %d: %s" % (pw, hmode, "; ".join(problems)),
+                              {"kind": "default-filters", "password": pw, "hmode": hmode, "archive": a.hex(),
+                               "members": [[n, d.hex()] for n, d in members]},
+                              match_keys={"kind": "default-filters", "empty_password": pw == ""})
+                return
+
+
 def run(ctx):
     rep, tier = ctx["rep"], ctx["tier"]
     rng = random.Random(ctx["seed"])
@@ -1364,7 +1411,7 @@ def run(ctx):
                        "wrong passwords at scale counted per password tried")
     if ctx["model"] is None:
         ctx["broken"].append("extracted model not available: correspondence and independent reader did not run")
-    for part in (check_kdf, check_props, check_decisions, check_toy_writer, check_archives, check_fresh, check_outcomes,
+    for part in (check_kdf, check_props, check_decisions, check_toy_writer, check_archives, check_default_filters, check_fresh, check_outcomes,
                  check_header_accept, check_many_wrong):
         t0 = time.time()
         try:
